@@ -206,7 +206,7 @@ pub fn check_case(c: &TextCase, obs: &mut Obs) -> Verdict {
 }
 
 fn strat(tier: Tier) -> BoxedStrategy<TextCase> {
-    prop_oneof![4 => text_case_mix(tier.pick(130, 200)), 1 => line_case(tier.pick(30, 100), true)].boxed()
+    prop_oneof![8 => text_case_mix(tier.pick(130, 200)), 2 => line_case(tier.pick(30, 100), true), 1 => big_line_case(tier.pick(130, 300))].boxed()
 }
 
 fn enum_small(_tier: Tier, f: &mut dyn FnMut(TextCase) -> bool) {
